@@ -432,7 +432,17 @@ func execC17once(w *c17W, x *Exec) *Outcome {
 						srv.Srv.ListJobs(&gripql.GraphID{Graph: op.G}, &jobListStream{})
 					}
 					if isEdit(op.Op) {
-						edits[c] = append(edits[c], c17Edit{op: op, value: val, acked: err == nil})
+						if op.Op == "bulk" && err != nil {
+							// a stream is not atomic: its elements are routed one by one
+							// (the first may have met a graph that did not exist yet); a
+							// stream that was not fully acknowledged counts as two
+							// independent vertex writes that may or may not have happened
+							edits[c] = append(edits[c],
+								c17Edit{op: cOp{Op: "addV", G: op.G, ID: op.ID, Label: op.Label}, value: val, acked: false},
+								c17Edit{op: cOp{Op: "addV", G: op.G, ID: bulkSecond(op.ID), Label: op.Label}, value: val, acked: false})
+						} else {
+							edits[c] = append(edits[c], c17Edit{op: op, value: val, acked: err == nil})
+						}
 					}
 				}
 				returned++
